@@ -482,7 +482,12 @@ def int_array(x):
         x = np.array(x)
 
     if x.dtype != complex:
-        x = np.array(list(map(int, x.flatten()))).reshape(x.shape)
+        vals = list(map(int, x.flatten()))
+        try:
+            x = np.array(vals, dtype=np.int64).reshape(x.shape)
+        except OverflowError:
+            # keep python integers: numpy would mix int64/uint64 values into float64
+            x = np.array(vals, dtype=object).reshape(x.shape)
     else:
         x_real = np.vectorize(lambda v: v.real)(x)
         x_imag = np.vectorize(lambda v: v.imag)(x)
